@@ -28,6 +28,11 @@ func intHeavyTables(r *RNG, n int) []*hTable {
 		// but other integer widths / string metadata, as after an in-place ALTER that kept the id
 		if r.Chance(1, 3) {
 			v := &hTable{id: t.id, db: t.db, name: t.name}
+			if r.Bool() {
+				// … or under a NEW id, as after an ALTER that re-opened the table: both ids stay valid for the rest of the
+				// attempt and each must keep its own table map
+				v.id = t.id + 1
+			}
 			for _, c := range t.cols {
 				if c.typ == 15 {
 					c.md = r.Pick(20, 300)
@@ -96,12 +101,15 @@ func init() {
 				}
 				// the mapper is asked once per table id, with the announced names
 				_, _, mcalls := runParse(hh, splitPackets(resp["packets"]), firstFile, 4, -1, "", false)
-				want := map[string]bool{}
+				want := map[string]map[uint64]bool{} // table name -> ids it was announced under
 				for _, u := range hh.units {
 					for _, ch := range u.changes {
 						if ch.rows != nil {
 							t := hh.tables[ch.rows.table]
-							want[t.db+"."+t.name] = true
+							if want[t.db+"."+t.name] == nil {
+								want[t.db+"."+t.name] = map[uint64]bool{}
+							}
+							want[t.db+"."+t.name][t.id] = true
 						}
 					}
 				}
@@ -109,15 +117,15 @@ func init() {
 				for _, m := range mcalls {
 					got[m]++
 				}
-				for k := range want {
-					if got[k] != 1 {
+				for k, ids := range want {
+					if got[k] != len(ids) {
 						o.OracleOK = false
-						o.Note = fmt.Sprintf("the table mapper was asked %d times for %s (want once, at the first announcement)", got[k], k)
+						o.Note = fmt.Sprintf("the table mapper was asked %d times for %s (want once per table id, at its first announcement: %d)", got[k], k, len(ids))
 						o.FindingKey = "mapper-calls"
 					}
 				}
 				for k := range got {
-					if !want[k] {
+					if want[k] == nil {
 						o.OracleOK = false
 						o.Note = "the table mapper was asked for a table that was never announced: " + k
 						o.FindingKey = "mapper-calls"
